@@ -21,6 +21,7 @@ import (
 	"time"
 
 	"verifmc/checks"
+	"verifmc/hist"
 )
 
 // verifDir is /verif; VERIF_DIR lets a scratch copy of the framework run next to
@@ -43,6 +44,50 @@ func main() {
 		os.Exit(replay(os.Args[2]))
 	case "repro":
 		os.Exit(reproCmd(os.Args[2]))
+	case "count":
+		// development aid: size of every scenario of an Engine H check (upper
+		// bound: histories in normal form before no-effect pruning)
+		spec := checks.HSpecs[os.Args[2]]
+		if spec == nil {
+			fmt.Println("not an Engine H check")
+			os.Exit(2)
+		}
+		scs := spec.Scenarios(os.Args[3])
+		type r struct {
+			name string
+			n    int
+		}
+		out := make([]r, len(scs))
+		var wg sync.WaitGroup
+		sem := make(chan struct{}, 16)
+		for i, sc := range scs {
+			wg.Add(1)
+			sem <- struct{}{}
+			go func() {
+				defer wg.Done()
+				out[i] = r{sc.Name, hist.CountHistories(sc)}
+				<-sem
+			}()
+		}
+		wg.Wait()
+		total := 0
+		for _, o := range out {
+			fmt.Printf("%10d %s\n", o.n, o.name)
+			total += o.n
+		}
+		fmt.Printf("%10d TOTAL (%d scenarios)\n", total, len(scs))
+		os.Exit(0)
+	case "countshape":
+		// development aid: vcheck countshape '<scenario json>' ... (one count per argument)
+		for _, a := range os.Args[2:] {
+			var sc hist.Scenario
+			if err := json.Unmarshal([]byte(a), &sc); err != nil {
+				fmt.Println(err)
+				os.Exit(2)
+			}
+			fmt.Printf("%10d %s\n", hist.CountHistories(&sc), a)
+		}
+		os.Exit(0)
 	case "racepass":
 		secs, _ := strconv.ParseFloat(os.Args[2], 64)
 		seed, _ := strconv.ParseInt(os.Getenv("VERIF_SEED"), 10, 64)
@@ -350,6 +395,10 @@ func run(id, tier string) int {
 	b, _ := json.MarshalIndent(ev, "", " ")
 	_ = os.MkdirAll(filepath.Join(verifDir, "evidence"), 0o755)
 	_ = os.WriteFile(filepath.Join(verifDir, "evidence", id+".json"), b, 0o644)
+	// evidence/<id>.json always describes the LAST run; keep one record per tier
+	// as well so that a quick run does not erase what the thorough run covered
+	_ = os.MkdirAll(filepath.Join(verifDir, "runs"), 0o755)
+	_ = os.WriteFile(filepath.Join(verifDir, "runs", id+"-"+tier+".json"), b, 0o644)
 
 	fmt.Printf("%s %s: evaluations=%d nontrivial=%d outcomes=%d scenarios=%d exhaustive=%v violations=%d known=%d wall=%.1fs\n",
 		id, tier, merged.Evaluations, merged.Nontrivial, distinct, len(merged.Completed), exhaustive, violations, len(kf), time.Since(start).Seconds())
